@@ -102,34 +102,122 @@ Fixpoint seq_events (ext op : string) (qs : list qid) : list event :=
 Fixpoint meas_bits (start : nat) (qs : list qid) : list value :=
   match qs with [] => [] | _ :: r => VBit (BMeas start) :: meas_bits (S start) r end.
 
-(* one iteration, for an arbitrary qubit and an arbitrary prefix of events (computed symbolically) *)
-Lemma measure_step : forall q pre,
-  call_with gen_tables (exec_stmts gen_tables 37) "quantum" "measure" [EVar "%elem"] [VQ q] [("%elem", VQ q)] pre
+(* one iteration, for an arbitrary qubit, an arbitrary prefix of events and ANY body evaluator *)
+Lemma measure_step : forall exec q pre,
+  call_with gen_tables exec "quantum" "measure" [EVar "%elem"] [VQ q] [("%elem", VQ q)] pre
   = Ok (VBit (BMeas (List.length pre)), [("%elem", VQ q)], app pre [mkEv "tket.quantum" "MeasureFree" [q] []]).
 Proof. intros. vm_compute. reflexivity. Qed.
 
-Lemma measure_loop : forall qs pre,
-  map_loop (fun v evs => call_with gen_tables (exec_stmts gen_tables 37) "quantum" "measure" [EVar "%elem"] [v] [("%elem", v)] evs)
+Lemma measure_loop : forall exec qs pre,
+  map_loop (fun v evs => call_with gen_tables exec "quantum" "measure" [EVar "%elem"] [v] [("%elem", v)] evs)
            (map VQ qs) pre
   = Ok (meas_bits (List.length pre) qs, app pre (seq_events "tket.quantum" "MeasureFree" qs)).
 Proof.
-  induction qs as [|q r IH]; intros pre; simpl map; unfold map_loop; fold map_loop.
+  intros exec. induction qs as [|q r IH]; intros pre; simpl map; unfold map_loop; fold map_loop.
   - simpl. rewrite app_nil_r. reflexivity.
   - rewrite measure_step. rewrite IH. rewrite app_length. simpl List.length.
     replace (List.length pre + 1) with (S (List.length pre)) by lia.
     rewrite <- app_assoc. reflexivity.
 Qed.
 
-Lemma measure_array_any_length : forall qs,
-  run_call gen_tables "quantum" "measure_array" [qarr qs]
-  = Ok (VArr (meas_bits 0 qs), [qarr qs], seq_events "tket.quantum" "MeasureFree" qs).
+(* unfolding of the comprehension, for every table and every amount of fuel *)
+Lemma eval_maparr : forall tb fuel en evs m f arr vs, eget en arr = Some (VArr vs) ->
+  eval_expr tb (S fuel) en evs (EMapArr m f arr)
+  = match map_loop (fun v evs => call_with tb (exec_stmts tb fuel) m f [EVar "%elem"] [v] [("%elem", v)] evs) vs evs with
+    | Err m' => Err m'
+    | Ok (ys, evs') => Ok (VArr ys, eset en arr VUnit, evs') end.
+Proof. intros. cbn [eval_expr]. rewrite H. reflexivity. Qed.
+
+Lemma measure_array_body_any_length : forall fuel en pre qs, eget en "qubits" = Some (qarr qs) ->
+  eval_expr gen_tables (S fuel) en pre (EMapArr "quantum" "measure" "qubits")
+  = Ok (VArr (meas_bits (List.length pre) qs), eset en "qubits" VUnit,
+        app pre (seq_events "tket.quantum" "MeasureFree" qs)).
+Proof. intros. rewrite (eval_maparr _ _ _ _ _ _ _ _ H). rewrite measure_loop. reflexivity. Qed.
+
+Definition body_of (m f : string) : option (list stmt) :=
+  match lookup_fn gen_tables m f with Some g => match g.(f_bind) with BGuppy b => Some b | _ => None end | None => None end.
+Lemma measure_array_body : body_of "quantum" "measure_array" = Some [SReturn (EMapArr "quantum" "measure" "qubits")].
+Proof. vm_compute. reflexivity. Qed.
+Lemma discard_array_body :
+  body_of "quantum" "discard_array" = Some [SFor "q" "qubits" [SExpr (ECall "quantum" "discard" [EVar "q"])]].
+Proof. vm_compute. reflexivity. Qed.
+
+(* discard_array: the loop body on the environments the loop actually runs in *)
+Definition dbody := [SExpr (ECall "quantum" "discard" [EVar "q"])].
+Lemma discard_step : forall k q pre tail, tail = [] \/ (exists v, tail = [("q", v)]) ->
+  exec_stmts gen_tables (S (S (S k))) (eset (("qubits", VUnit) :: tail) "q" (VQ q)) pre dbody
+  = Ok (VUnit, [("qubits", VUnit); ("q", VQ q)], app pre [mkEv "tket.quantum" "QFree" [q] []]).
+Proof. intros k q pre tail [-> | [v ->]]; vm_compute; reflexivity. Qed.
+
+Lemma discard_loop : forall k qs pre tail, tail = [] \/ (exists v, tail = [("q", v)]) ->
+  exists en', for_loop (fun en evs => exec_stmts gen_tables (S (S (S k))) en evs dbody) "q" (map VQ qs)
+                       (("qubits", VUnit) :: tail) pre
+              = Ok (en', app pre (seq_events "tket.quantum" "QFree" qs)).
 Proof.
-  intros qs. unfold run_call, FUEL.
-  change (eval_expr gen_tables 40 (combine (firstn (List.length [qarr qs]) argnames) [qarr qs]) []
-            (ECall "quantum" "measure_array" (map EVar (firstn (List.length [qarr qs]) argnames))))
-    with (match map_loop (fun v evs => call_with gen_tables (exec_stmts gen_tables 37) "quantum" "measure" [EVar "%elem"] [v] [("%elem", v)] evs)
-                         (map VQ qs) [] with
-          | Err m' => Err m'
-          | Ok (ys, evs') => Ok (VArr ys, [("%0", qarr qs)], evs') end).
-  rewrite measure_loop. reflexivity.
+  intros k. induction qs as [|q r IH]; intros pre tail Ht; simpl map; unfold for_loop; fold for_loop.
+  - eexists. simpl. rewrite app_nil_r. reflexivity.
+  - rewrite (discard_step k q pre tail Ht).
+    destruct (IH (app pre [mkEv "tket.quantum" "QFree" [q] []]) [("q", VQ q)]) as [en' E]; [right; eexists; reflexivity|].
+    exists en'. rewrite E. rewrite <- app_assoc. reflexivity.
 Qed.
+
+(* the complete calls for the lengths 0..4 (computed) *)
+Definition small_arrays : list (list qid) :=
+  [[]; [QIn 5]; [QIn 2; QIn 0]; [QIn 1; QIn 0; QIn 2]; [QIn 3; QIn 1; QIn 2; QIn 0]].
+Definition arrays_small_ok : bool :=
+  forallb (fun qs =>
+    match run_call gen_tables "quantum" "measure_array" [qarr qs], run_call gen_tables "quantum" "discard_array" [qarr qs] with
+    | Ok (VArr bs, _, evs), Ok (VUnit, _, evs') =>
+        Nat.eqb (List.length bs) (List.length qs) && Nat.eqb (List.length evs) (List.length qs)
+        && Nat.eqb (List.length evs') (List.length qs)
+        && forallb (fun qe => match ev_qs (snd qe) with [q] => match q, fst qe with QIn a, QIn b => Nat.eqb a b | _, _ => false end | _ => false end
+                              && String.eqb (ev_op (snd qe)) "MeasureFree") (combine qs evs)
+        && forallb (fun qe => match ev_qs (snd qe) with [q] => match q, fst qe with QIn a, QIn b => Nat.eqb a b | _, _ => false end | _ => false end
+                              && String.eqb (ev_op (snd qe)) "QFree") (combine qs evs')
+    | _, _ => false end) small_arrays.
+Lemma arrays_small : arrays_small_ok = true.
+Proof. vm_compute. reflexivity. Qed.
+
+(* ---------------------------------------------------------------- angle arithmetic *)
+Definition angle_call (f : string) (vs : list value) := run_call gen_tables "angles" f vs.
+
+Lemma angle_methods : forall a b,
+  angle_call "angle.__add__" [VAng a; VAng b] = Ok (VAng (FAdd a b), [VAng a; VAng b], []) /\
+  angle_call "angle.__sub__" [VAng a; VAng b] = Ok (VAng (FSub a b), [VAng a; VAng b], []) /\
+  angle_call "angle.__mul__" [VAng a; VF b] = Ok (VAng (FMul a b), [VAng a; VF b], []) /\
+  angle_call "angle.__rmul__" [VAng a; VF b] = Ok (VAng (FMul a b), [VAng a; VF b], []) /\
+  angle_call "angle.__truediv__" [VAng a; VF b] = Ok (VAng (FDiv a b), [VAng a; VF b], []) /\
+  angle_call "angle.__rtruediv__" [VAng a; VF b] = Ok (VAng (FDiv b a), [VAng a; VF b], []) /\
+  angle_call "angle.__neg__" [VAng a] = Ok (VAng (FNeg a), [VAng a], []) /\
+  angle_call "angle.__float__" [VAng a] = Ok (VF (FMul a (FConst math_pi)), [VAng a], []) /\
+  angle_call "angle.__eq__" [VAng a; VAng b] = Ok (VBit (BFeq a b), [VAng a; VAng b], []).
+Proof. intros. repeat split; vm_compute; reflexivity. Qed.
+
+Lemma pi_is_one_halfturn : gen_tables.(t_pi_halfturns) = one_halfturn.
+Proof. vm_compute. reflexivity. Qed.
+
+(* operators in expressions reach those methods (Python's dispatch, incl. the reflected forms) *)
+Definition eval_closed (e : expr) (en : env) := eval_expr gen_tables FUEL en [] e.
+Lemma operator_dispatch : forall a b x,
+  let en := [("a", VAng a); ("b", VAng b); ("x", VF x)] in
+  eval_closed (EBin OpAdd (EVar "a") (EVar "b")) en = Ok (VAng (FAdd a b), en, []) /\
+  eval_closed (EBin OpSub (EVar "a") (EVar "b")) en = Ok (VAng (FSub a b), en, []) /\
+  eval_closed (EBin OpMul (EVar "a") (EVar "x")) en = Ok (VAng (FMul a x), en, []) /\
+  eval_closed (EBin OpMul (EVar "x") (EVar "a")) en = Ok (VAng (FMul a x), en, []) /\
+  eval_closed (EBin OpDiv (EVar "a") (EVar "x")) en = Ok (VAng (FDiv a x), en, []) /\
+  eval_closed (EBin OpDiv (EVar "x") (EVar "a")) en = Ok (VAng (FDiv x a), en, []) /\
+  eval_closed (ENeg (EVar "a")) en = Ok (VAng (FNeg a), en, []) /\
+  eval_closed (EFloatOf (EVar "a")) en = Ok (VF (FMul a (FConst math_pi)), en, []) /\
+  eval_closed (EBin OpDiv EPi (ENum two)) en = Ok (VAng (FDiv (FConst one_halfturn) (FConst two)), en, []).
+Proof. intros. repeat split; vm_compute; reflexivity. Qed.
+
+(* ---------------------------------------------------------------- documentation strings *)
+Lemma docs_consistent : forallb doc_consistent gen_fns = true.
+Proof. vm_compute. reflexivity. Qed.
+
+(* non-vacuity: how many entries each table theorem really constrains *)
+Definition n_custom := List.length (filter (fun g => match g.(f_bind) with BCustom _ _ _ => true | _ => false end) gen_fns).
+Definition n_functional := List.length (filter (fun g => match is_functional g.(f_mod) with Some _ => true | None => false end) gen_fns).
+Definition n_documented := List.length (filter (fun g => match g.(f_doc).(d_mathrm) with Some _ => true | None => false end) gen_fns).
+Lemma table_sizes : n_custom = List.length naming /\ Nat.leb 25 n_functional = true /\ Nat.leb 20 n_documented = true.
+Proof. vm_compute. repeat split; reflexivity. Qed.
